@@ -299,7 +299,24 @@ class Flow:
         fn = exe.fn_stack[-1]
         ordn = exe.loop_ord[fn].get(n['id'])
         con = exe.contracts.get(fn, {}).get('loops', {})
-        return ordn, con.get(ordn)
+        lc = con.get(ordn)
+        if isinstance(lc, (list, tuple)):
+            # alternative formulations of the same abstraction: the first one whose names bind to the current code
+            from .cexpr import eval_clauses, SpecError
+            st = self._cur_state_for_binding
+            for cand in lc:
+                try:
+                    if st is not None and 'invariant' in cand:
+                        self.discovery += 1
+                        try:
+                            eval_clauses(exe, cand['invariant'], st.fork(), fn, loop_entry=st)
+                        finally:
+                            self.discovery -= 1
+                    return ordn, cand
+                except SpecError:
+                    continue
+            raise FrontEndError('no loop invariant formulation binds to loop %d of %s' % (ordn, fn))
+        return ordn, lc
 
     def s_ForStmt(self, n, st):
         init, _, cond, inc, body = n['inner']
@@ -319,8 +336,11 @@ class Flow:
         body, cond = n['inner'][0], n['inner'][1]
         return self._loop(n, st, cond, body, None, True)
 
+    _cur_state_for_binding = None
+
     def _loop(self, n, st, cond, body, inc, is_do):
         exe = self.exe
+        self._cur_state_for_binding = st
         ordn, lc = self._loop_contract(n)
         if lc is not None and lc.get('cut_unroll'):
             return self._unroll(n, st, cond, body, inc, is_do, lc.get('unroll', MAX_UNROLL), cut=lc, ordn=ordn)
